@@ -125,6 +125,10 @@ pub trait Grp: Sized + Send + Sync + 'static {
     /// full group order n = h * r
     fn order() -> Z;
     fn small_primes() -> Vec<(u64, u32)>;
+    /// full-curve points with structured coordinates (G2 only)
+    fn special_points() -> Vec<(String, Pt<Self::F>)> {
+        vec![]
+    }
     /// crate decoding of a byte string of the right length (Err(String): panic or wrong size())
     fn decode_bytes(compressed: bool, bytes: &[u8], checked: bool) -> Result<Result<Self::Aff, pairing_plus::GroupDecodingError>, String>;
     /// crate encoding through CurveAffine::into_compressed / into_uncompressed
@@ -369,6 +373,9 @@ impl Grp for G2m {
         refmodel::curve::H2_SMALL_PRIMES.to_vec()
     }
     codec_impl!(cr::G2Compressed, cr::G2Uncompressed);
+    fn special_points() -> Vec<(String, Pt<Fq2>)> {
+        crate::recipes::g2_special_points()
+    }
 }
 
 /// model point -> crate affine (canonical identity for Inf)
